@@ -56,6 +56,20 @@ func registerIOModels() {
 			return VTuple{E: []Val{VInt{n}, err}}
 		},
 	}
+	libModels["(*gzip.Reader).Read"] = &libModel{
+		desc:   "(*gzip.Reader).Read(p) is an io.Reader.Read: 0 <= n <= len(p), possibly together with any error; writes p[0:n] and the reader's own state only (no field of a larking struct)",
+		writes: []string{"E$uint8", "G$rd.pos"},
+		apply: func(c *FnCtx, st *State, in ssa.Instruction, cc *ssa.CallCommon, args []Val) Val {
+			p := args[1].(VSlice)
+			id := c.define("rid", sInt, readerID(args[0]))
+			n := c.declare("rd.n", sInt)
+			c.assume(st, and(le("0", n), le(n, p.Len)))
+			err := c.freshVal(st, types.Universe.Lookup("error").Type(), "rd.err").(VIface)
+			c.assert(foreignErr(err))
+			c.readInto(st, id, p, n, err)
+			return VTuple{E: []Val{VInt{n}, err}}
+		},
+	}
 	libModels["io.ReadFull"] = &libModel{
 		desc:   "ReadFull(r, buf) returns 0 <= n <= len(buf); err == nil <=> n == len(buf); err == io.EOF ==> n == 0; n > 0 && err != nil ==> err != io.EOF; buf[0:n] receives the next n stream bytes and rdpos(r) advances by n",
 		writes: []string{"E$uint8", "G$rd.pos"},
